@@ -27,7 +27,7 @@ ASSUMPTIONS = ['the documentation tables of the tree under test are the specific
                'propagate_fft refusing tilt-carrying wavefronts (NotImplementedError) is C09\'s rule, not a table entry']
 EXHAUSTIVE = True
 PLAN = {'quick': {'gen': 8}, 'thorough': {'gen': 16, 'tests': 1}}
-REQUIRED_BUCKETS = ['typed-tilt-class', 'start:none+focal', 'form:mismatch', 'copy-step', 'form:scalar', 'form:disjoint', 'start:none', 'start:pupil', 'start:image', 'len:1', 'len:2', 'len:3', 'random-long',
+REQUIRED_BUCKETS = ['form:reassigned', 'typed-tilt-class', 'start:none+focal', 'form:mismatch', 'copy-step', 'form:scalar', 'form:disjoint', 'start:none', 'start:pupil', 'start:image', 'len:1', 'len:2', 'len:3', 'random-long',
                     'cell:allowed', 'cell:refused', 'propagate:allowed', 'propagate:refused']
 REQUIRED_ANCHORS = ['anchor:_can_mul_ptype', 'anchor:_mul_result_ptype', 'anchor:_propagate_ptype', 'anchor:Image.multiply',
                     'anchor:PType.__eq__']
@@ -98,6 +98,16 @@ def make_plane(lentil, name, w, form='array'):
     if form == 'mismatch':
         # a pixel scale that contradicts the wavefront's: a forbidden pair must still be refused with TypeError
         ps = DX * 1.5 if w.pixelscale is None else tuple(float(x) * 1.5 for x in w.pixelscale)
+    if form == 'reassigned':
+        # "once a plane is defined its attributes can be modified at any time": the same plane after its amplitude / OPD were
+        # assigned again keeps its class's plane type
+        pl = make_plane(lentil, name, w, 'fresh')
+        try:
+            pl.amplitude = np.array(pl.amplitude, dtype=float) * 1.0
+            pl.opd = np.array(pl.opd, dtype=float) + 0.0
+        except Exception:
+            pass
+        return pl
     if form in ('array', 'scalar') and name in ('Tilt', 'DispersiveTilt', 'Grism'):
         if name not in _SHARED:
             _SHARED[name] = make_plane(lentil, name, w, 'fresh')
@@ -262,6 +272,17 @@ def workload(ctx, lentil):
                 continue
             ctx.case({'start': 'none:focal', 'prog': list(prog)}, ['start:none+focal'])
             run_program(ctx, lentil, 'none:focal', prog, traces)
+    # planes whose attributes were assigned again after construction
+    k = 0
+    for start in ('none', 'pupil', 'image'):
+        for L in range(1, 3):
+            for prog in itertools.product(['Plane', 'Pupil', 'Image', 'Tilt', 'DispersiveTilt', 'ptype:pupil', 'ptype:tilt', 'Tilt@image',
+                                           'propagate_dft'], repeat=L):
+                k += 1
+                if k % ctx.nshards != ctx.shard:
+                    continue
+                ctx.case({'start': start, 'prog': list(prog), 'form': 'reassigned'}, ['form:reassigned'])
+                run_program(ctx, lentil, start, prog, traces, forms=['reassigned'] * L)
     # copies of the wavefront (deepcopy / pickle round trip) anywhere in a program
     k = 0
     for start in ('none', 'pupil', 'image'):
